@@ -99,7 +99,7 @@ def gen_file(file, name):
     that is no longer found only breaks the proofs that depend on it"""
     if file != "Consts":
         return file
-    if name.startswith("ch") or name in ("plusGuarded", "hashGuarded"):
+    if name.startswith("ch") or name in ("plusGuarded", "hashGuarded", "matcherShapeOk"):
         return "Matcher"
     if name.startswith("mid"):
         return "MidConsts"
@@ -238,6 +238,42 @@ def extract_matcher(out: Out, m: Src):
     out.anchor(F, "chHash", "UInt8", lambda: (wildcard_guard('#')(), one_char('#'))[1], "matcher.py iter_match: '#' in node._children")
     out.anchor(F, "plusGuarded", "Bool", wildcard_guard('+'), "matcher.py iter_match: '+' branch guarded by (normal or i > 0)")
     out.anchor(F, "hashGuarded", "Bool", wildcard_guard('#'), "matcher.py iter_match: '#' branch guarded by (normal or i > 0)")
+
+    # the trie model (Paho.Model.Trie) follows these five methods statement by statement: their statement structure (kinds and
+    # nesting of the statements, docstrings aside) must be the modelled one - an added fast path, counter or early return is not
+    # something the anchors above would notice
+    SHAPE = {
+        "__init__": "0Assign",
+        "__setitem__": "0Assign 0For 1Assign 0Assign",
+        "__getitem__": "0Try 1Assign 1For 2Assign 1If 2Raise 1Return 1Raise",
+        "__delitem__": "0Assign 0Try 1Assign 1For 2Assign 2Expr 1Assign 1For 2If 3Break 2Delete 1Raise",
+        "iter_match": "0Assign 0Assign 0FunctionDef 1If 2If 3Expr 2Assign 2If 3For 4Expr 2If 3For 4Expr 1If 2Assign 2If 3Expr 0Return",
+    }
+
+    def skeleton(fn):
+        acc = []
+
+        def rec(body, d):
+            for st in body:
+                if isinstance(st, ast.Expr) and isinstance(st.value, ast.Constant) and isinstance(st.value.value, str):
+                    continue
+                acc.append(f"{d}{type(st).__name__}")
+                for fld in ("body", "orelse", "finalbody"):
+                    sub = getattr(st, fld, None)
+                    if sub:
+                        rec(sub, d + 1)
+                for h in getattr(st, "handlers", []) or []:
+                    rec(h.body, d + 1)
+        rec(fn.body, 0)
+        return " ".join(acc)
+
+    def shape():
+        for fn, want in SHAPE.items():
+            got = skeleton(m.func(f"{cls}.{fn}"))
+            if got != want:
+                raise Missing(f"{fn}: statement structure <{got}> is not the modelled one <{want}>")
+        return True
+    out.anchor(F, "matcherShapeOk", "Bool", shape, "matcher.py MQTTMatcher: __init__/__setitem__/__getitem__/__delitem__/iter_match have the modelled statement structure")
 
 
 # ------------------------------------------------------------------ client.py scalars
